@@ -302,6 +302,9 @@ impl Check for C12 {
     fn hang_is_violation(&self) -> bool {
         true
     }
+    fn worker_init(&self) {
+        crate::runner::install_child_tracer_factory();
+    }
     fn crash_is_violation(&self) -> bool {
         true
     }
@@ -331,6 +334,16 @@ impl Check for C12 {
             let loc = first.rsplit('@').next().unwrap_or("").trim();
             let loc = loc.rsplit("/src/").next().unwrap_or(loc);
             return CaseResult::fail(hash, &format!("session-thread-panicked@{}", loc), format!("{}\nevents {:?} faults {:?}\n{}", p.trim(), names, c.faults, c.xml));
+        }
+        // Invoked children of this case: wait until they have left interpret() (they are cancelled when the
+        // parent ends). One that never leaves it has panicked (recorded by the panic hook) or is wedged.
+        let still = crate::runner::wait_children(Duration::from_millis(150));
+        let others = crate::engine::last_panic();
+        // reader panics are caught by the executor (fix 59f798b) and are no thread panics
+        if let Some(first) = others.lines().find(|l| l.starts_with("[fsm_") && !l.contains("scxml_reader.rs") && still > 0) {
+            let loc = first.rsplit('@').next().unwrap_or("").trim();
+            let loc = loc.rsplit("/src/").next().unwrap_or(loc);
+            return CaseResult::fail(hash, &format!("child-session-thread-panicked@{}", loc), format!("{}\nevents {:?} faults {:?}\n{}", first, names, c.faults, c.xml));
         }
         if real.timed_out {
             return CaseResult::fail(hash, "session-wedged", format!("the session did not end within 8 s after events {:?} and cancel; faults {:?}\n{}", names, c.faults, c.xml));
